@@ -156,4 +156,13 @@ func gen(h *lp.H, do func(string) string, im *impl) {
 		h.Op(fmt.Sprintf("concurrent %d %s", k, pol), out)
 		h.Distinct(fmt.Sprintf("conc/%d/%s/%d", k, pol, c))
 	}
+	// ---- writers racing with Close (oracle only)
+	for c := 0; c < h.N/40+3 && !h.TooMany(); c++ {
+		k := 6 + rng.Intn(11)
+		pol := []string{"interval300", "none", "size:16"}[c%3]
+		h.Case(fmt.Sprintf("raceclose %d writers=%d policy=%s", c, k, pol))
+		out := im.concurrentX(h, k, 400, pol, rng.Int63(), true)
+		h.Op(fmt.Sprintf("concurrent %d %s", k, pol), out)
+		h.Distinct(fmt.Sprintf("raceclose/%d/%s/%d", k, pol, c))
+	}
 }
